@@ -329,7 +329,7 @@ def scenarios(tier, nflows):
     if nflows == 2:
         if tier == "quick":
             return [("http", "ws"), ("tcp", "udp"), ("dns", "http")]
-        return [(KINDS[i], KINDS[(i + 1) % 5]) for i in range(5)] + [("http", "http"), ("ws", "ws"), ("tcp", "http"), ("dns", "udp")]
+        return [(KINDS[i], KINDS[(i + 1) % 5]) for i in range(5)] + [("http", "http")]
     if tier == "quick":
         return [("http", "ws", "tcp"), ("udp", "dns", "http"), ("http", "tcp", "http")]
     return [(KINDS[i], KINDS[(i + 1) % 5], KINDS[(i + 3) % 5]) for i in range(5)] + [("http", "ws", "http")]
@@ -448,7 +448,7 @@ def obligations(tier):
     n2, c2 = (3, 1) if q else (4, 1)
     n3, c3 = (2, 1) if q else (3, 1)
     ns = 2 if q else 3
-    bud = 300 if q else 2400
+    bud = 1800 if q else 7200
     return [
         Symx("inductive-step", lambda X: run_step(X, tier, ns),
              bounds=f"all {5 ** ns} kind tuples of {ns} flows over {{HTTP, HTTP+WebSocket, TCP, UDP, DNS}} x every abstract state (saving on/off, "
